@@ -12,7 +12,7 @@ import (
 	"verifharness/internal/val"
 )
 
-var c08Floor = []string{"depth.2", "depth.3", "inner.empty", "outer.empty", "mid.empty", "ragged", "where", "item.alias", "item.nonidempotent", "item.star", "item.async", "item.userfn", "mix", "mix.keep", "reexec.after-fault", "opt.vars", "opt.constants", "item.aggregate", "item.all-aggregate", "where.aggregate", "reexec", "naming.table-qualified"}
+var c08Floor = []string{"depth.2", "depth.3", "inner.empty", "outer.empty", "mid.empty", "ragged", "where", "item.alias", "item.nonidempotent", "item.star", "item.async", "item.userfn", "mix", "mix.keep", "reexec.after-fault", "opt.vars", "opt.constants", "item.aggregate", "item.all-aggregate", "where.aggregate", "reexec", "naming.table-qualified", "naming.alias", "naming.alias-unqualified"}
 
 func init() {
 	fw.Register(&fw.Prop{
@@ -124,10 +124,18 @@ func c08Run(c *fw.Case) {
 	pg := &gen.PredGen{R: c.R, T: tmpl, MaxDepth: 2, Disable: map[string]bool{"in.subquery": true}}
 	// the columns may be named with the table's own name (mm.n1 FROM mm): the
 	// inner arrays, the flattened source and a flat array answer alike
-	qual := ""
-	if force == "naming.table-qualified" || (force == "" && c.Chance(0.12)) {
+	qual, as := "", ""
+	switch {
+	case force == "naming.table-qualified" || (force == "" && c.Chance(0.12)):
 		qual = "mm"
 		feats = append(feats, "naming.table-qualified")
+	case force == "naming.alias" || (force == "" && c.Chance(0.1)):
+		// an alias on the multi-dimensional source names the rows of the inner arrays
+		qual, as = "m", " m"
+		feats = append(feats, "naming.alias")
+	case force == "naming.alias-unqualified" || (force == "" && c.Chance(0.06)):
+		as = " m"
+		feats = append(feats, "naming.alias-unqualified")
 	}
 	qcols := func(text string) string {
 		if qual == "" {
@@ -233,9 +241,9 @@ func c08Run(c *fw.Case) {
 		}
 	}
 	sel := strings.Join(items, ", ")
-	sql := "SELECT " + sel + " FROM mm" + where
+	sql := "SELECT " + sel + " FROM mm" + as + where
 	inner, innerKey := "SELECT "+sel+" FROM t"+where, "t"
-	if qual != "" {
+	if qual != "" || as != "" {
 		inner, innerKey = sql, "mm"
 	}
 	armFault(0, faultNone)
@@ -323,7 +331,7 @@ func c08Run(c *fw.Case) {
 	}
 	// mix=> : concatenation of the inner results
 	if !hasAgg && !whereAgg && (force == "mix" || c.Chance(0.5)) {
-		msql := "SELECT " + sel + " FROM `mix=>mm`" + where
+		msql := "SELECT " + sel + " FROM `mix=>mm`" + as + where
 		m := Run(val.CopyMap(doc), msql, opts()...)
 		evals++
 		feats = append(feats, "mix")
@@ -385,7 +393,7 @@ func c08Run(c *fw.Case) {
 	// mix=> over the first K inner arrays
 	if !hasAgg && !whereAgg && (force == "mix.keep" || c.Chance(0.25)) {
 		K := c.Intn(len(mm) + 1)
-		ksql := fmt.Sprintf("SELECT %s FROM `mix=>mm[keep=>(0:%d)]`%s", sel, K, where)
+		ksql := fmt.Sprintf("SELECT %s FROM `mix=>mm[keep=>(0:%d)]`%s%s", sel, K, as, where)
 		k := Run(val.CopyMap(doc), ksql, opts()...)
 		waitBackground()
 		evals++
